@@ -183,7 +183,7 @@ pub fn run_c15(tier: Tier) -> ! {
     nstreams += total;
     // multi-frame streams (1 ... 300 / 1000 frames with noise, rejected and aborted frames in between)
     let nmax = tier.pick(300usize, 1000);
-    let items: Vec<(usize, usize)> = (1..=nmax).filter(|n| n % 5 == 1 || (250..=260).contains(n) || *n == nmax).flat_map(|n| (0..3).map(move |v| (n, v))).collect();
+    let items: Vec<(usize, usize)> = (1..=nmax).filter(|n| n % 5 == 1 || (250..=260).contains(n) || *n == nmax).flat_map(|n| (0..4).map(move |v| (n, v))).collect();
     let parts = par_chunks(items.len() as u64, 2, |a, b| {
         let mut t = Tally::new();
         let mut c = Counts::default();
